@@ -27,6 +27,9 @@ RULE = (
     "unmodified successful load"
 )
 TRUSTED = [
+    "the hand transcription of the format readers into lean/Iodata/Model/Rd/* (xyz, sdf, mol2, pdb, cube, gromacs, and "
+    "chgcar._load_vasp_header/_load_vasp_grid + the load_one of poscar, chgcar, locpot in Model/Rd/Vasp.lean), checked "
+    "by the rdr:<fmt> streams only",
     "the ast translator harness/vh/flowlib.py (api.py -> Gen/ApiFlow.lean)",
     "the scripted format module / traced open() / traced LineIterator of harness/vh/flowlib.py",
 ]
@@ -39,6 +42,9 @@ ASSUMPTIONS = [
     "(exploration support), with a per-load wall-clock limit",
     "lineno convention: LineIterator increments lineno before reading, so after running into the end of a file with N "
     "lines the reported number is N+1 (the line that could not be read); stated as lineno = #next - #back",
+    "VASP grid readers (CHGCAR, LOCPOT): `for line in lit` of _load_vasp_grid swallows the StopIteration of the end of "
+    "the file and a later next(lit) counts once more, so their proved read bound (and the largest line number a "
+    "LoadError can name) is N+2, attained by a file whose last line has four or more integers",
 ]
 RULE = RULE + ". " + rdrs.RULE
 ASSUMPTIONS = ASSUMPTIONS + rdrs.ASSUMPTIONS
